@@ -476,3 +476,40 @@ Theorem ut_der_verbatim_refuted :
   ut_der u_2026_hm <> ut_der u_2026 /\ ut_der u_2026_off <> ut_der u_2026 /\
   ut_canon u_2026_hm 0 = Some u_2026 /\ ut_canon u_2026_off 0 = Some u_2026 /\ ut_canon u_2026 0 = Some u_2026.
 Proof. vm_compute. repeat split; congruence. Qed.
+
+(* ------------------------------------------------------------------ *)
+(* compare_struct of two GeneralizedTime values with equal instants *)
+
+(* the repaired comparison is the order of the fraction values *)
+Theorem frac_cmp_fix_nanos av ad bv bd : 0 <= ad <= 9 -> 0 <= bd <= 9 ->
+  frac_cmp_fix av ad bv bd = (nanos av ad ?= nanos bv bd).
+Proof.
+  intros Ha Hb. unfold frac_cmp_fix, nanos.
+  destruct (ad <=? 9) eqn:E1; [|lia]. destruct (bd <=? 9) eqn:E2; [|lia].
+  assert (HA : 10 ^ ad * 10 ^ (9 - ad) = 10 ^ 9) by (rewrite <- Z.pow_add_r by lia; f_equal; lia).
+  assert (HB : 10 ^ bd * 10 ^ (9 - bd) = 10 ^ 9) by (rewrite <- Z.pow_add_r by lia; f_equal; lia).
+  assert (PA : 0 < 10 ^ (9 - ad)) by (apply Z.pow_pos_nonneg; lia).
+  assert (PB : 0 < 10 ^ (9 - bd)) by (apply Z.pow_pos_nonneg; lia).
+  set (A := 10 ^ ad) in *. set (B := 10 ^ bd) in *.
+  set (A' := 10 ^ (9 - ad)) in *. set (B' := 10 ^ (9 - bd)) in *.
+  rewrite (Zmult_compare_compat_r (av * B) (bv * A) (A' * B')) by nia.
+  replace (av * B * (A' * B')) with (av * A' * (B * B')) by ring.
+  replace (bv * A * (A' * B')) with (bv * B' * (A * A')) by ring.
+  rewrite HA, HB. symmetry. apply Zmult_compare_compat_r. lia.
+Qed.
+
+(* the C agrees with it when both texts carry the same number of fraction digits *)
+Theorem frac_cmp_c_partial av ad bv bd : 0 <= bd -> ad = bd ->
+  frac_cmp_c av ad bv bd = frac_cmp_fix av ad bv bd.
+Proof.
+  intros Hp ->. unfold frac_cmp_c, frac_cmp_fix. rewrite Z.eqb_refl.
+  apply Zmult_compare_compat_r. assert (0 < 10 ^ bd) by (apply Z.pow_pos_nonneg; lia). lia.
+Qed.
+
+(* and not otherwise: .5 against .50 (equal), no fraction against .0 (equal), .5 against .25, .25 against .3 (order reversed) *)
+Theorem frac_cmp_c_refuted :
+  frac_cmp_fix 5 1 50 2 = Eq /\ frac_cmp_c 5 1 50 2 = Lt /\
+  frac_cmp_fix 0 0 0 1 = Eq /\ frac_cmp_c 0 0 0 1 = Lt /\
+  frac_cmp_fix 5 1 25 2 = Gt /\ frac_cmp_c 5 1 25 2 = Lt /\
+  frac_cmp_fix 25 2 3 1 = Lt /\ frac_cmp_c 25 2 3 1 = Gt.
+Proof. vm_compute. repeat split. Qed.
